@@ -384,7 +384,78 @@ func opConcVer(a []string) string {
 	return "ok"
 }
 
+// concsame <fam> <opts> <d> <p> <gomaxprocs> <n> <rounds> <seed>: in every round n goroutines are released TOGETHER on ONE
+// fresh erasure pattern (they all miss the cache and insert the same key at once), each on its own shard set; then one
+// sequential call with another fresh pattern follows (an insert that needs the exclusive lock).  Every restored shard is
+// compared with the original.  Run under `guard`: a call that never returns is reported as "hang".
+func opConcSame(a []string) string {
+	fam, opts, d, p, gmp, n, rounds, seed := a[0], a[1], atoi(a[2]), atoi(a[3]), atoi(a[4]), atoi(a[5]), atoi(a[6]), atou(a[7])
+	old := runtime.GOMAXPROCS(gmp)
+	defer runtime.GOMAXPROCS(old)
+	shared, err := newEnc(fam, d, p, opts)
+	if err != nil {
+		return "err " + errClass(err)
+	}
+	ref, _ := newEnc(fam, d, p, opts)
+	size := 64
+	rng := rand.New(rand.NewSource(int64(seed)))
+	pattern := func() []int {
+		k := 1 + rng.Intn(p)
+		E := rng.Perm(d + p)[:k]
+		E[0] = rng.Intn(d) // at least one data shard: the decode matrix is needed
+		return E
+	}
+	one := func(E []int, s uint64) string {
+		sh := mkShards(d, p, size, s)
+		if err := ref.Encode(sh); err != nil {
+			return "encode-error"
+		}
+		orig := make([][]byte, len(sh))
+		for i := range sh {
+			orig[i] = append([]byte(nil), sh[i]...)
+		}
+		for _, e := range E {
+			sh[e] = nil
+		}
+		if err := shared.Reconstruct(sh); err != nil {
+			return "err " + errClass(err)
+		}
+		for i := range sh {
+			if !bytes.Equal(sh[i], orig[i]) {
+				return "WRONG"
+			}
+		}
+		return "ok"
+	}
+	for r := 0; r < rounds; r++ {
+		E := pattern()
+		res := make([]string, n)
+		var wg sync.WaitGroup
+		start := make(chan struct{})
+		for g := 0; g < n; g++ {
+			wg.Add(1)
+			go func(g int) {
+				defer wg.Done()
+				<-start
+				res[g] = one(E, seed+uint64(r*1000+g))
+			}(g)
+		}
+		close(start)
+		wg.Wait()
+		for g := range res {
+			if res[g] != "ok" {
+				return fmt.Sprintf("round%d g%d %s", r, g, res[g])
+			}
+		}
+		if s := one(pattern(), seed+uint64(r*1000+999)); s != "ok" {
+			return fmt.Sprintf("round%d seq %s", r, s)
+		}
+	}
+	return "ok"
+}
+
 func init() {
+	extraOps["concsame"] = opConcSame
 	extraOps["concver"] = opConcVer
 	extraOps["conc"] = opConc
 	extraOps["concread"] = opConcRead
